@@ -189,4 +189,18 @@ theorem addChain_inv {cfg : Cfg} {U : List Submit} {st : State} (hinv : Inv cfg 
         subst this
         exact ⟨sub, hsub, l, e, by rw [hp]; rfl, rfl, he, hts, hw, hlv'⟩
 
+theorem run_inv (cfg : Cfg) (U : List Submit) : ∀ (hist : List Submit) (st : State), Inv cfg U st → (∀ x ∈ hist, x ∈ U) →
+    Inv cfg U (run cfg st hist).2
+  | [], _, h, _ => h
+  | s :: rest, st, h, hu => by
+    simp only [run]
+    exact run_inv cfg U rest _ (addChain_inv h (hu s (List.mem_cons_self ..))) (fun x hx => hu x (List.mem_cons_of_mem _ hx))
+
+theorem run_find_mono (cfg : Cfg) : ∀ (hist : List Submit) (st : State) {h : Bytes} {s : Stored}, st.find h = some s →
+    (run cfg st hist).2.find h = some s
+  | [], _, _, _, hf => hf
+  | x :: rest, st, _, _, hf => by
+    simp only [run]
+    exact run_find_mono cfg rest _ (addChain_find_mono cfg st x.now x.path x.isPrecert hf)
+
 end C01
